@@ -332,6 +332,56 @@ func ruleValidate(c *Ctx, a *reloadAnchors) {
 	ruleValidateAgrees(c, a)
 }
 
+// enumKeyOf: the (struct type, field) of the server command that value v carries — a load of that field, or a parameter
+// (method receiver) that every call inside the region binds to such a load (`lnConfig.Type.supported()`).
+func enumKeyOf(c *Ctx, reg *Region, v ssa.Value, depth int) (string, bool) {
+	key := ""
+	os := c.P.Origins(v, eng.OriginOpts{ThroughConvert: true})
+	if len(os) == 0 {
+		return "", false
+	}
+	for _, o := range os {
+		t, f, _, ok := eng.FieldLoad(o)
+		if !ok {
+			if fl, isF := o.(*ssa.Field); isF {
+				if st, isS := fl.X.Type().Underlying().(*types.Struct); isS {
+					t, f, ok = eng.TypeName(fl.X.Type()), st.Field(fl.Field).Name(), true
+				}
+			}
+		}
+		k := ""
+		if ok && strings.HasPrefix(t, mainPkg+".") {
+			k = t + "." + f
+		} else if pa, isP := o.(*ssa.Parameter); isP && depth < 2 && pa.Parent() != nil && reg.In[pa.Parent()] {
+			idx := -1
+			for i, q := range pa.Parent().Params {
+				if q == pa {
+					idx = i
+				}
+			}
+			for _, s := range c.P.CallSitesOf(pa.Parent()) {
+				if !reg.In[s.Fn] {
+					continue
+				}
+				args := s.Ins.(ssa.CallInstruction).Common().Args
+				if idx < 0 || idx >= len(args) {
+					return "", false
+				}
+				kk, ok2 := enumKeyOf(c, reg, args[idx], depth+1)
+				if !ok2 || (k != "" && k != kk) {
+					return "", false
+				}
+				k = kk
+			}
+		}
+		if k == "" || (key != "" && key != k) {
+			return "", false
+		}
+		key = k
+	}
+	return key, key != ""
+}
+
 // enumSets: for every (struct type, field) of the server command whose loaded value is compared with constants in the region,
 // the set of constants it is compared with (switch cases and if chains alike).
 func enumSets(c *Ctx, reg *Region) map[string]map[string]bool {
@@ -346,19 +396,7 @@ func enumSets(c *Ctx, reg *Region) map[string]map[string]bool {
 			if !ok || cst.Value == nil {
 				continue
 			}
-			for _, o := range c.P.Origins(pr[0], eng.OriginOpts{ThroughConvert: true}) {
-				t, f, _, ok := eng.FieldLoad(o)
-				if !ok {
-					if fl, isF := o.(*ssa.Field); isF {
-						if st, isS := fl.X.Type().Underlying().(*types.Struct); isS {
-							t, f, ok = eng.TypeName(fl.X.Type()), st.Field(fl.Field).Name(), true
-						}
-					}
-				}
-				if !ok || !strings.HasPrefix(t, mainPkg+".") {
-					continue
-				}
-				k := t + "." + f
+			if k, ok := enumKeyOf(c, reg, pr[0], 0); ok {
 				if out[k] == nil {
 					out[k] = map[string]bool{}
 				}
@@ -458,20 +496,8 @@ func ruleValidateAgrees(c *Ctx, a *reloadAnchors) {
 // k against constants are followed according to u; all other branches are explored both ways; error returns end a path.
 func enumWalk(c *Ctx, reg *Region, k, u string, hit func(ssa.Instruction) bool) bool {
 	isK := func(v ssa.Value) bool {
-		for _, o := range c.P.Origins(v, eng.OriginOpts{ThroughConvert: true}) {
-			t, f, _, ok := eng.FieldLoad(o)
-			if !ok {
-				if fl, isF := o.(*ssa.Field); isF {
-					if st, isS := fl.X.Type().Underlying().(*types.Struct); isS {
-						t, f, ok = eng.TypeName(fl.X.Type()), st.Field(fl.Field).Name(), true
-					}
-				}
-			}
-			if ok && t+"."+f == k {
-				return true
-			}
-		}
-		return false
+		kk, ok := enumKeyOf(c, reg, v, 0)
+		return ok && kk == k
 	}
 	// known(cond): (value, known)
 	var known func(v ssa.Value) (bool, bool)
@@ -482,6 +508,38 @@ func enumWalk(c *Ctx, reg *Region, k, u string, hit func(ssa.Instruction) bool) 
 				b, ok := known(x.X)
 				return !b, ok
 			}
+		case *ssa.Call:
+			// a predicate of the field's type ((ListenerType).supported()): evaluate it for the assumed value
+			h := x.Call.StaticCallee()
+			if h == nil || !reg.In[h] || len(h.Blocks) == 0 || h.Signature.Results().Len() != 1 || h.Signature.Results().At(0).Type().String() != "bool" {
+				return false, false
+			}
+			b := h.Blocks[0]
+			for steps := 0; steps < 64; steps++ {
+				last := b.Instrs[len(b.Instrs)-1]
+				switch t := last.(type) {
+				case *ssa.Return:
+					if cst, ok := c.P.Resolve(retVal(c.P, t)).(*ssa.Const); ok && cst.Value != nil {
+						return cst.Value.ExactString() == "true", true
+					}
+					return false, false
+				case *ssa.If:
+					v, kn := known(t.Cond)
+					if !kn {
+						return false, false
+					}
+					if v {
+						b = b.Succs[0]
+					} else {
+						b = b.Succs[1]
+					}
+				case *ssa.Jump:
+					b = b.Succs[0]
+				default:
+					return false, false
+				}
+			}
+			return false, false
 		case *ssa.BinOp:
 			if x.Op != token.EQL && x.Op != token.NEQ {
 				return false, false
@@ -502,6 +560,9 @@ func enumWalk(c *Ctx, reg *Region, k, u string, hit func(ssa.Instruction) bool) 
 	}
 	found := false
 	for _, f := range reg.Fns {
+		if rs := f.Signature.Results(); rs.Len() == 1 && rs.At(0).Type().String() == "bool" && len(c.P.CallSitesOf(f)) > 0 {
+			continue // a predicate evaluated at its call sites (known), not a place where an entry is accepted or refused
+		}
 		ei := errorResultIndex(f.Signature)
 		loops := eng.Loops(f)
 		// entry blocks: blocks whose terminator tests k and that are not reachable from another such block first
